@@ -2,7 +2,7 @@
 the abstract machine (lean/Simpleline/Model/Machine.lean).  Patches only below the repo (queue.Queue.get, sys.stdout) and at the
 repo's own test seam InputHandlerRequest._get_input; see DESIGN.md section 5."""
 import io, os, queue, sys, threading, time
-sys.path.insert(0, "/repo")
+sys.path.insert(0, os.environ.get("VERIF_REPO", "/repo"))      # VERIF_REPO: only for trying a change in a scratch worktree (never set by the registered commands)
 from simpleline import App
 from simpleline.event_loop import AbstractSignal, ExitMainLoop
 from simpleline.event_loop.main_loop import MainLoop
@@ -126,6 +126,9 @@ InputRequest.start_thread = _start
 RET = {"PROCESSED": InputState.PROCESSED, "REDRAW": InputState.PROCESSED_AND_REDRAW,
        "CLOSE": InputState.PROCESSED_AND_CLOSE, "DISCARDED": InputState.DISCARDED}
 
+from simpleline.event_loop.signals import InputReadySignal, InputReceivedSignal, RenderScreenSignal, CloseScreenSignal
+FRAMEWORK_CLASSES = {"InputReady": InputReadySignal, "InputReceived": InputReceivedSignal, "Render": RenderScreenSignal, "Close": CloseScreenSignal, "Exception": ExceptionSignal}
+
 class World:
     def __init__(self, case):
         self.case = case; self.screens = {}; self.srcs = {}; self.classes = {}; self.ucalls = {}
@@ -135,6 +138,7 @@ class World:
         if ref[0] == "scr": return self.screens[ref[1]]
         return self.srcs.setdefault(ref, type("Src", (), {})())
     def cls(self, name):
+        if name in FRAMEWORK_CLASSES: return FRAMEWORK_CLASSES[name]       # an application handler registered for one of the framework's own signal classes
         if name not in self.classes:
             # distinct classes; with case["same_name"] they all carry the same __name__ (identity, not the name, is what a waiter waits for)
             base = (self.case.get("derive") or {}).get(name)       # a signal class deriving from another signal class (dispatch is by exact class)
